@@ -196,6 +196,7 @@ static void set_world(const char *k, const char *v)
     else if (!strcmp(k, "max_active_levels")) W.max_active_levels = (int)x;
     else if (!strcmp(k, "thread_limit")) W.thread_limit = (int)x < 1 ? 1 : (int)x;
     else if (!strcmp(k, "team_fail_above")) W.team_fail_above = (int)x;
+    else if (!strcmp(k, "unusual_seed")) W.unusual_seed = (uint64_t)x;
     else if (!strcmp(k, "p_defer")) W.p_defer = (uint32_t)x;
     else if (!strcmp(k, "p_switch")) W.p_switch = (uint32_t)x;
     else if (!strcmp(k, "p_hook_yield")) W.p_hook_yield = (uint32_t)x;
